@@ -250,6 +250,29 @@ def _patches(P, b, local):
                 for k, s2 in enumerate(b.blocks[nb]["stmts"]):
                     if s2["p"] == (tm["dest"][0], "*") and "rv" in s2:
                         out[i[1]] = (norm(T.rvalue(s2["rv"], nb, k)), tm)
+    # buffer[c..c+2].copy_from_slice(&v.to_be_bytes()) stores the same two octets as buffer[c] = v >> 8; buffer[c+1] = v & 0xff
+    for bb, tm in b.calls():
+        n = callee_name(tm) or ""
+        if not n.endswith("::copy_from_slice"):
+            continue
+        dst, src = [norm(x) for x in T.call_args(bb)]
+        if not (dst[0] == "call" and str(dst[1]).endswith("index_mut") and src[0] == "call" and str(src[1]).endswith("::to_be_bytes")):
+            continue
+        rng = norm(dst[2][1])
+        if rng[0] != "agg" or not rng[1].endswith("ops::Range"):
+            continue
+        f = dict(rng[3])
+        st = norm(f.get("start"))
+        if st[0] != "const" or not isinstance(st[1], int):
+            continue
+        from ..affine import affine
+        en = affine(f.get("end"), lambda x: False)
+        root = dst[2][0]
+        onbuf = any(y[0] == "field" and y[2] == "buffer" for y in subterms(root))
+        if en is not None and not en[0] and en[1] == st[1] + 2 and onbuf and "u16" in str(src[1]):
+            v = norm(src[2][0])
+            out[st[1]] = (("bin", "Shr", v, ("const", 8)), tm)
+            out[st[1] + 1] = (("bin", "BitAnd", v, ("const", 255)), tm)
     return out
 
 
